@@ -172,6 +172,24 @@ def run(ctx):
          "a snapshot naming an unknown state is accepted silently", fs.node)
     # ---- R7 every persisted configuration id is restored (or rejected) ----------------------------
     shared.restore_every_id(ctx, "R7")
+    # ---- R8 every persisted actor is restored and wired to its parent ------------------------------
+    al = [l for l in own_nodes(fs.node) if isinstance(l, ast.For) and "'actors'" in norm(l.iter).replace('"', "'")]
+    if c.expect("R8", "restore loop over the persisted actors", len(al), 1, fs, "from_snapshot no longer restores the persisted child actors"):
+        l = al[0]
+        early = [y for st_ in l.body for y in ast.walk(st_) if isinstance(y, (ast.Break, ast.Return))]
+        c.ob("R8", not early, fs, "actor-loop-complete", "an actor that cannot be restored is skipped with 'continue'; the others are still restored" if not early else
+             f"'{stmt_text(early[0])}' leaves the actor restore loop early: the actors persisted after the first unrestorable one are lost", (early or [l])[0])
+        made = [a for st_ in l.body for a in ast.walk(st_) if isinstance(a, ast.Assign) and isinstance(a.targets[0], ast.Name) and isinstance(a.value, ast.Call)
+                and norm(a.value.func).endswith("from_snapshot")]
+        if c.expect("R8", "recursive restore of the child", len(made), 1, fs, "the actor restore loop no longer rebuilds the child from its persisted snapshot", l):
+            ch = made[0].targets[0].id
+            stores = {norm(t) for st_ in l.body for a in ast.walk(st_) if isinstance(a, ast.Assign) for t in a.targets}
+            key = norm(l.target.elts[0]) if isinstance(l.target, ast.Tuple) else "?"
+            for want, why in ((f"{ch}.parent", "the restored child has no parent: sendParent / escalate from it are dropped"),
+                              (f"{ch}.id", "the restored child keeps a freshly generated id: it is no longer addressable under the id it was persisted with"),
+                              (f"interpreter._actors[{key}]", "the restored child is not put back into the parent's actor map: stop() and sendTo cannot reach it")):
+                c.ob("R8", want in stores, fs, f"restored-child:{want.split('.')[-1][:12]}", f"'{want}' is re-established on restore" if want in stores else
+                     f"the actor restore loop no longer assigns '{want}': {why}", l)
     # ---- R5 ancestor closure on restore ----------------------------------------------------
     shared.snapshot_ancestor_closure(ctx, "R5")
 
